@@ -935,11 +935,16 @@ class World:
                                          "created_kind": created_kind})
             ctx.created.append(bname)
         elif expect_new_bc:
+            det = {"new": name, "bc": bname, "op": ctx.op}
             self.flag(("C14", "C09") if created_kind == "copy" else
                       "C14" if created_kind in ("binop", "unop", "eval") else "C15",
                       "I2" if created_kind in ("binop", "unop", "eval", "copy") else "I8",
-                      "%s/identity/bc-object-shared" % created_kind,
-                      {"new": name, "bc": bname, "op": ctx.op})
+                      "%s/identity/bc-object-shared" % created_kind, det)
+            if created_kind in ("binop", "unop", "eval", "copy") and self.prop in ("C12", "C09", "C04", "C03"):
+                # a derived field (alpha/dt, 2*phi + 1, a snapshot taken with copy()) that
+                # shares the BoundaryConditions object of its operand: an edit of either
+                # one's BCs silently changes the problem the other one is stepped with
+                self.flag(self.prop, "I1", "%s/result-shares-bcs-with-operand" % created_kind, det)
         e = self.add("v", name, v, {"mesh": mesh_name, "bc": bname, "origin": origin,
                                     "last_consume": self.step, "parents": tuple(parents),
                                     "created_kind": created_kind,
